@@ -13,8 +13,9 @@
    paragraphs, multi-line values, duplicate names, any blank-line layout, optional final newline),
    every indentation of at least one column or FieldNameLength, either empty-first-line setting,
    every one-line limit, every pair of comparators that depend only on names and values. *)
-From V.model Require Import Base Deb822Lex Deb822Parse Grammar Lossy LossySpec Deb822Edit LiveDoc Deb822Wrap WrapSpec.
-From V.proofs Require Import LiveDocP Deb822WrapP Deb822WrapInstP.
+From V.model Require Import Base Deb822Lex Deb822Parse Grammar Lossy LossySpec Deb822Edit LiveDoc Deb822Wrap WrapSpec ControlSpec.
+From V.model Require RelAcc RelGrammar RelWrap RelWrapSpec.
+From V.proofs Require Import LiveDocP Deb822WrapP Deb822WrapInstP ControlWrapP WrapTokP ParseTokP.
 
 (* ---------------------------------------------------------------- the property *)
 (* 1. All clauses, for the repaired code, without a formatter (C07_full is in WrapSpec.v). *)
@@ -329,6 +330,258 @@ Check C07_control_unparsable_relation_panics :
   control_ws fixed (fun _ => Panic 20) (Spaces 1) false None (tree_of WC.d_bad_relation) = Panic 20.
 Print Assumptions C07_control_unparsable_relation_panics.
 
+(* 9. The control-file wrappers with the REAL relations branch (no parameter): format_field with
+      C13's model of parse_relaxed(v, true) + Relations::wrap_and_sort + to_string in it
+      (ControlSpec.real_format_field), on every control file whose relationship fields (the twelve
+      names) hold a well-formed relationship field of C10's grammar in C13's safe domain and whose
+      Uploaders fields have no empty piece (ControlSpec.ctl_doc_ok); every other field is arbitrary.
+      Control::wrap_and_sort: no panic; the tree of the described layout (paragraphs in control
+      order, stably; comment lines in front of the same field / paragraph); every field reports its
+      name with the formatter's output (the canonical single-line relation text of C13, the Uploaders
+      pieces one per line, otherwise the value it had); the printed result parses strictly and
+      re-reads to that; indentation; one blank line between paragraphs; a second application returns
+      the same tree (C13_idem inside: the relations formatter maps its own output, behind any blanks
+      or line breaks, to itself). *)
+Theorem C07_control_real : forall c d, ind_ok c = true -> wf_doc d = true -> ctl_doc_ok (lift d) ->
+  let l1 := a_ws_doc (Some control_cmp) (a_ws_items c None (Some ctl_total)) (lift d) in
+  real_control_ws c (tree_of d) = Ok (ltree_of l1) /\
+  doc_items (ltree_of l1) = map (fun its => map (a_pair (Some ctl_total)) (fields_of its))
+                                (sort_by (on_items control_cmp) (paras_of (lift d))) /\
+  (exists t', from_str (text (ltree_of l1)) = Ok t' /\ doc_items t' = doc_items (ltree_of l1)) /\
+  doc_indented c l1 = true /\ single_blanks SepStart l1 = true /\
+  real_control_ws c (ltree_of l1) = Ok (ltree_of l1).
+Proof. exact real_control_proof. Qed.
+Check C07_control_real : forall c d, ind_ok c = true -> wf_doc d = true -> ctl_doc_ok (lift d) ->
+  let l1 := a_ws_doc (Some control_cmp) (a_ws_items c None (Some ctl_total)) (lift d) in
+  real_control_ws c (tree_of d) = Ok (ltree_of l1) /\
+  doc_items (ltree_of l1) = map (fun its => map (a_pair (Some ctl_total)) (fields_of its))
+                                (sort_by (on_items control_cmp) (paras_of (lift d))) /\
+  (exists t', from_str (text (ltree_of l1)) = Ok t' /\ doc_items t' = doc_items (ltree_of l1)) /\
+  doc_indented c l1 = true /\ single_blanks SepStart l1 = true /\
+  real_control_ws c (ltree_of l1) = Ok (ltree_of l1).
+Print Assumptions C07_control_real.
+
+(* Source::wrap_and_sort / Binary::wrap_and_sort (ControlSpec.real_control_para_ws = Paragraph::
+   wrap_and_sort without a field sort, with format_field): on every well-formed paragraph of such
+   a control file -- fields and comment lines in any order --: no panic; the paragraph of
+   a_ws_items (fields in their order, comment lines in front of the same field); every field
+   reports its name with the formatter's output; well-formed; indented; a second application
+   returns the same paragraph. *)
+Theorem C07_source_binary : forall c its more, ind_ok c = true -> wf_items its more = true -> ctl_items_ok its ->
+  let its1 := a_ws_items c None (Some ctl_total) its in
+  real_control_para_ws c (lblock_tree (LPara its)) = Ok (lblock_tree (LPara its1)) /\
+  flat_map item_pairs its1 = map (a_pair (Some ctl_total)) (fields_of its) /\
+  wf_items its1 more = true /\ items_indented c its1 = true /\
+  real_control_para_ws c (lblock_tree (LPara its1)) = Ok (lblock_tree (LPara its1)).
+Proof. exact real_para_proof. Qed.
+Check C07_source_binary : forall c its more, ind_ok c = true -> wf_items its more = true -> ctl_items_ok its ->
+  let its1 := a_ws_items c None (Some ctl_total) its in
+  real_control_para_ws c (lblock_tree (LPara its)) = Ok (lblock_tree (LPara its1)) /\
+  flat_map item_pairs its1 = map (a_pair (Some ctl_total)) (fields_of its) /\
+  wf_items its1 more = true /\ items_indented c its1 = true /\
+  real_control_para_ws c (lblock_tree (LPara its1)) = Ok (lblock_tree (LPara its1)).
+Print Assumptions C07_source_binary.
+
+(* what the formatter does to one field of such a file: it answers (no panic), its output is shaped
+   (the relation text is ONE line without CR and without a blank in front), and it answers the
+   same on the re-laid-out field *)
+Theorem C07_control_field : forall c f m, ind_ok c = true -> wf_field f m = true -> ctl_field_ok f -> field_facts c f.
+Proof. exact ctl_field_facts. Qed.
+Check C07_control_field : forall c f m, ind_ok c = true -> wf_field f m = true -> ctl_field_ok f -> field_facts c f.
+Print Assumptions C07_control_field.
+
+Theorem C07_relation_formatter : forall rf, RelGrammar.wf_rfield true rf = true -> RelWrapSpec.field_safe rf = true ->
+  let o := text (RelWrapGrammarP.ws_tree rf) in
+  real_rel (RelGrammar.rrender rf) = Ok o /\
+  (forall lead, forallb lead_char lead = true -> real_rel (lead ++ o) = Ok o) /\
+  no_eol o = true /\ match o with [] => True | ch :: _ => is_indent ch = false end.
+Proof. exact real_rel_field. Qed.
+Check C07_relation_formatter : forall rf, RelGrammar.wf_rfield true rf = true -> RelWrapSpec.field_safe rf = true ->
+  let o := text (RelWrapGrammarP.ws_tree rf) in
+  real_rel (RelGrammar.rrender rf) = Ok o /\
+  (forall lead, forallb lead_char lead = true -> real_rel (lead ++ o) = Ok o) /\
+  no_eol o = true /\ match o with [] => True | ch :: _ => is_indent ch = false end.
+Print Assumptions C07_relation_formatter.
+
+(* 10. Idempotence with ANY formatter: it holds whenever the formatter absorbs the re-layout on the
+       document at hand (ControlWrapP.absorbs_on: on every field its output does not start with a
+       blank or line break and comes back unchanged when fed back behind blanks / line breaks --
+       which is all the re-layout adds) and the comparators do not see what is rewritten.  Something
+       of the kind is needed: the formatter that appends "!" is shaped and appends another "!" on
+       every application. *)
+Theorem C07_formatter_idem_absorbs : forall c psort pcmp esort ecmp g d,
+  ind_ok c = true -> pcmp_agrees psort pcmp -> ecmp_agrees esort ecmp -> wf_doc d = true ->
+  doc_shaped (Some g) (lift d) -> absorbs_on g (lift d) ->
+  pair_cmp_consistent ecmp -> para_cmp_consistent pcmp ->
+  ecmp_invariant_on ecmp (Some g) (lift d) -> pcmp_invariant_on pcmp ecmp (Some g) (lift d) ->
+  let l1 := a_ws_doc pcmp (a_ws_items c ecmp (Some g)) (lift d) in
+  std_ws fixed c psort esort (Some (pure_fmt g)) (ltree_of l1) = Ok (ltree_of l1).
+Proof. exact absorbs_on_idem_proof. Qed.
+Check C07_formatter_idem_absorbs : forall c psort pcmp esort ecmp g d,
+  ind_ok c = true -> pcmp_agrees psort pcmp -> ecmp_agrees esort ecmp -> wf_doc d = true ->
+  doc_shaped (Some g) (lift d) -> absorbs_on g (lift d) ->
+  pair_cmp_consistent ecmp -> para_cmp_consistent pcmp ->
+  ecmp_invariant_on ecmp (Some g) (lift d) -> pcmp_invariant_on pcmp ecmp (Some g) (lift d) ->
+  let l1 := a_ws_doc pcmp (a_ws_items c ecmp (Some g)) (lift d) in
+  std_ws fixed c psort esort (Some (pure_fmt g)) (ltree_of l1) = Ok (ltree_of l1).
+Print Assumptions C07_formatter_idem_absorbs.
+
+Theorem C07_formatter_idem_needs_premise :
+  doc_shaped (Some WF.bang) (lift WF.d_bang) /\
+  exists t1 t2, std_ws fixed WF.c2 None None (Some (pure_fmt WF.bang)) (tree_of WF.d_bang) = Ok t1 /\ text t1 = WF.once /\
+                std_ws fixed WF.c2 None None (Some (pure_fmt WF.bang)) t1 = Ok t2 /\ text t2 = WF.twice.
+Proof. exact bang_not_idempotent. Qed.
+Check C07_formatter_idem_needs_premise :
+  doc_shaped (Some WF.bang) (lift WF.d_bang) /\
+  exists t1 t2, std_ws fixed WF.c2 None None (Some (pure_fmt WF.bang)) (tree_of WF.d_bang) = Ok t1 /\ text t1 = WF.once /\
+                std_ws fixed WF.c2 None None (Some (pure_fmt WF.bang)) t1 = Ok t2 /\ text t2 = WF.twice.
+Print Assumptions C07_formatter_idem_needs_premise.
+
+(* 11. Beyond the abstract grammar (no reference to Grammar.v): every tree whose entries consist of
+       tokens -- KEY, COLON, WHITESPACE, VALUE, NEWLINE, INDENT, COMMENT in ANY arrangement: blanks
+       before the colon, CR or LF line ends, blank and comment lines inside a value --, whose paragraphs
+       consist of such entries and of COMMENT / NEWLINE tokens, and whose root consists of such
+       paragraphs and of EMPTY_LINE nodes of tokens (WrapTokP.token_doc; every document the reader
+       returns without an error is one -- not proved here, checked by the streams), no formatter.
+       Entry::wrap_and_sort: no panic; the result is KEY/COLON tokens followed by what rebuild_value
+       emits; the VALUE texts and the COMMENT texts are kept, in order; the key is kept; every INDENT
+       has exactly the requested width; a second application returns the same entry. *)
+Theorem C07_tokens_entry : forall ind iel mll cs,
+  forallb is_tok_elem cs = true -> (entry_n ind cs =? 0)%N = false ->
+  entry_ws fixed ind iel mll None (Node ENTRY cs) = Ok (entry_out ind iel mll cs) /\
+  ktx VALUE (children (entry_out ind iel mll cs)) = ktx VALUE cs /\
+  ktx COMMENT (children (entry_out ind iel mll cs)) = ktx COMMENT cs /\
+  entry_key (entry_out ind iel mll cs) = entry_key (Node ENTRY cs) /\
+  (exists O, children (entry_out ind iel mll cs) = built_of cs ++ O /\ forallb (out_elem (entry_n ind cs)) O = true) /\
+  entry_ws fixed ind iel mll None (entry_out ind iel mll cs) = Ok (entry_out ind iel mll cs).
+Proof.
+  intros ind iel mll cs H Hn. destruct (entry_out_idem ind iel mll cs H) as (A & B & C). destruct (entry_out_shape ind iel mll cs H) as [K S].
+  split; [apply entry_ws_tokens; assumption|]. split; [apply entry_out_texts; [exact H|reflexivity]|]. split; [apply entry_out_texts; [exact H|reflexivity]|].
+  split; [exact K|]. split; [exact S|].
+  change (entry_out ind iel mll cs) with (Node ENTRY (children (entry_out ind iel mll cs))) at 1.
+  rewrite (entry_ws_tokens ind iel mll _ A), C; [reflexivity|]. rewrite B. exact Hn.
+Qed.
+Check C07_tokens_entry : forall ind iel mll cs,
+  forallb is_tok_elem cs = true -> (entry_n ind cs =? 0)%N = false ->
+  entry_ws fixed ind iel mll None (Node ENTRY cs) = Ok (entry_out ind iel mll cs) /\
+  ktx VALUE (children (entry_out ind iel mll cs)) = ktx VALUE cs /\
+  ktx COMMENT (children (entry_out ind iel mll cs)) = ktx COMMENT cs /\
+  entry_key (entry_out ind iel mll cs) = entry_key (Node ENTRY cs) /\
+  (exists O, children (entry_out ind iel mll cs) = built_of cs ++ O /\ forallb (out_elem (entry_n ind cs)) O = true) /\
+  entry_ws fixed ind iel mll None (entry_out ind iel mll cs) = Ok (entry_out ind iel mll cs).
+Print Assumptions C07_tokens_entry.
+
+(* the value tokens of any entry, rebuilt, are read back as tokens that rebuild to the same *)
+Theorem C07_tokens_rebuild_value : forall T kl n iel mll, forallb is_ctok T = true -> stripped T ->
+  exists T2, strip_trailing (filter cfilt (rebuild_value fixed T kl n iel mll)) = elems T2 /\
+             forallb is_ctok T2 = true /\ stripped T2 /\
+             rebuild_value fixed T2 kl n iel mll = rebuild_value fixed T kl n iel mll.
+Proof. exact rebuild_fix. Qed.
+Check C07_tokens_rebuild_value : forall T kl n iel mll, forallb is_ctok T = true -> stripped T ->
+  exists T2, strip_trailing (filter cfilt (rebuild_value fixed T kl n iel mll)) = elems T2 /\
+             forallb is_ctok T2 = true /\ stripped T2 /\
+             rebuild_value fixed T2 kl n iel mll = rebuild_value fixed T kl n iel mll.
+Print Assumptions C07_tokens_rebuild_value.
+
+(* Paragraph::wrap_and_sort on such a paragraph: no panic; the groups "loose tokens (comment lines)
+   in front of an entry + that entry" sorted stably as units, every entry rebuilt, the loose tokens
+   after the last entry last (p_out); a second application changes nothing, for every comparator
+   that answers consistently and does not see the re-layout (esort_ok; by_name is one). *)
+Theorem C07_tokens_paragraph : forall ind iel mll esort cs,
+  forallb (pchild_ok ind) cs = true -> esort_ok ind iel mll esort ->
+  para_ws fixed ind iel mll esort None (Node PARAGRAPH cs) = Ok (Node PARAGRAPH (p_out ind iel mll esort cs)) /\
+  forallb (pchild_ok ind) (p_out ind iel mll esort cs) = true /\
+  para_ws fixed ind iel mll esort None (Node PARAGRAPH (p_out ind iel mll esort cs)) = Ok (Node PARAGRAPH (p_out ind iel mll esort cs)).
+Proof.
+  intros ind iel mll esort cs H Hes. destruct (p_out_idem ind iel mll esort cs H Hes) as [A B].
+  split; [apply para_ws_tokens, H|]. split; [exact A|]. rewrite (para_ws_tokens ind iel mll esort _ A), B. reflexivity.
+Qed.
+Check C07_tokens_paragraph : forall ind iel mll esort cs,
+  forallb (pchild_ok ind) cs = true -> esort_ok ind iel mll esort ->
+  para_ws fixed ind iel mll esort None (Node PARAGRAPH cs) = Ok (Node PARAGRAPH (p_out ind iel mll esort cs)) /\
+  forallb (pchild_ok ind) (p_out ind iel mll esort cs) = true /\
+  para_ws fixed ind iel mll esort None (Node PARAGRAPH (p_out ind iel mll esort cs)) = Ok (Node PARAGRAPH (p_out ind iel mll esort cs)).
+Print Assumptions C07_tokens_paragraph.
+
+(* Deb822::wrap_and_sort on such a document: no panic; the groups "comment lines in front of a
+   paragraph + that paragraph" sorted stably as units, blank lines dropped, one blank line between
+   paragraphs, every paragraph reformatted, every last line terminated (d_out); the result is again
+   such a document; a second application returns the same tree. *)
+Theorem C07_tokens_document : forall ind iel mll psort esort t, token_doc ind t = true ->
+  esort_ok ind iel mll esort -> psort_ok ind iel mll psort esort ->
+  let R := d_out ind iel mll psort esort (children t) in
+  doc_ws fixed psort (Some (para_ws fixed ind iel mll esort None)) t = Ok R /\
+  token_doc ind R = true /\
+  doc_ws fixed psort (Some (para_ws fixed ind iel mll esort None)) R = Ok R.
+Proof. exact token_doc_ws. Qed.
+Check C07_tokens_document : forall ind iel mll psort esort t, token_doc ind t = true ->
+  esort_ok ind iel mll esort -> psort_ok ind iel mll psort esort ->
+  let R := d_out ind iel mll psort esort (children t) in
+  doc_ws fixed psort (Some (para_ws fixed ind iel mll esort None)) t = Ok R /\
+  token_doc ind R = true /\
+  doc_ws fixed psort (Some (para_ws fixed ind iel mll esort None)) R = Ok R.
+Print Assumptions C07_tokens_document.
+
+Theorem C07_tokens_by_name : forall ind iel mll, esort_ok ind iel mll (Some by_name).
+Proof. exact by_name_esort_ok. Qed.
+Check C07_tokens_by_name : forall ind iel mll, esort_ok ind iel mll (Some by_name).
+Print Assumptions C07_tokens_by_name.
+
+(* the paragraph comparators of the streams meet psort_ok when the fields are not sorted (the
+   paragraph step then keeps items() as it is) *)
+Theorem C07_tokens_paragraph_comparators : forall ind iel mll,
+  psort_ok ind iel mll (Some by_first_value) None /\ psort_ok ind iel mll (Some control_order) None.
+Proof. intros ind iel mll. exact (conj (by_first_value_psort_ok ind iel mll) (control_order_psort_ok ind iel mll)). Qed.
+Check C07_tokens_paragraph_comparators : forall ind iel mll,
+  psort_ok ind iel mll (Some by_first_value) None /\ psort_ok ind iel mll (Some control_order) None.
+Print Assumptions C07_tokens_paragraph_comparators.
+
+(* 12. EVERY document the strict reader returns (from_str s = Ok t: the property's "all error-free
+       documents", CR line ends, blanks before the colon, blank and comment lines inside values
+       included) is such a token document; so, without a formatter, for every indentation of at
+       least one column, both settings, every limit and all comparators that answer consistently
+       and do not see the re-layout: no panic; the result is d_out (comment lines in front of the
+       same paragraph / field, stable order); its paragraphs are those of the input in the sorted
+       order, each with the fields p_out gives it -- by C07_error_free_paragraph the fields it had,
+       names and values, in the stable order of the field sort --; a second application returns
+       the same tree.  (NOT proved for these documents: that the printed result parses strictly and
+       re-reads to the reported content -- that needs the reader's theorem C03 for layouts outside
+       Grammar.v; it is checked by the streams.) *)
+Theorem C07_error_free_is_token_doc : forall s t ind, from_str s = Ok t -> ind_pos ind -> token_doc ind t = true.
+Proof. exact error_free_is_token_doc. Qed.
+Check C07_error_free_is_token_doc : forall s t ind, from_str s = Ok t -> ind_pos ind -> token_doc ind t = true.
+Print Assumptions C07_error_free_is_token_doc.
+
+Theorem C07_error_free : forall s t ind iel mll psort esort, from_str s = Ok t -> ind_pos ind ->
+  esort_ok ind iel mll esort -> psort_ok ind iel mll psort esort ->
+  let R := d_out ind iel mll psort esort (children t) in
+  doc_ws fixed psort (Some (para_ws fixed ind iel mll esort None)) t = Ok R /\
+  doc_items t = map (fun g => items (snd g)) (fst (d_groups (children t) [])) /\
+  doc_items R = map (fun g => items (Node PARAGRAPH (p_out ind iel mll esort (children (snd g)))))
+                    (sort_opt (option_map on_snd psort) (fst (d_groups (children t) []))) /\
+  doc_ws fixed psort (Some (para_ws fixed ind iel mll esort None)) R = Ok R.
+Proof. exact error_free_ws. Qed.
+Check C07_error_free : forall s t ind iel mll psort esort, from_str s = Ok t -> ind_pos ind ->
+  esort_ok ind iel mll esort -> psort_ok ind iel mll psort esort ->
+  let R := d_out ind iel mll psort esort (children t) in
+  doc_ws fixed psort (Some (para_ws fixed ind iel mll esort None)) t = Ok R /\
+  doc_items t = map (fun g => items (snd g)) (fst (d_groups (children t) [])) /\
+  doc_items R = map (fun g => items (Node PARAGRAPH (p_out ind iel mll esort (children (snd g)))))
+                    (sort_opt (option_map on_snd psort) (fst (d_groups (children t) []))) /\
+  doc_ws fixed psort (Some (para_ws fixed ind iel mll esort None)) R = Ok R.
+Print Assumptions C07_error_free.
+
+Theorem C07_error_free_paragraph : forall ind iel mll esort cs, forallb (pchild_ok ind) cs = true ->
+  items (Node PARAGRAPH cs) = flat_map (fun g => epair (snd g)) (fst (p_groups cs [])) /\
+  items (Node PARAGRAPH (p_out ind iel mll esort cs)) =
+    flat_map (fun g => epair (snd g)) (sort_opt (option_map on_snd esort) (fst (p_groups cs []))).
+Proof. exact p_out_items. Qed.
+Check C07_error_free_paragraph : forall ind iel mll esort cs, forallb (pchild_ok ind) cs = true ->
+  items (Node PARAGRAPH cs) = flat_map (fun g => epair (snd g)) (fst (p_groups cs [])) /\
+  items (Node PARAGRAPH (p_out ind iel mll esort cs)) =
+    flat_map (fun g => epair (snd g)) (sort_opt (option_map on_snd esort) (fst (p_groups cs []))).
+Print Assumptions C07_error_free_paragraph.
+
 (* ---------------------------------------------------------------- non-vacuity *)
 Module Examples.
   Import Coq.Strings.String.
@@ -412,4 +665,85 @@ A: 1
     fmt_shaped_on (Some (fun _ v => fmt_uploaders v)) upl = true /\
     a_pair (Some (fun _ v => fmt_uploaders v)) upl = (s "Uploaders", (s "A <a@x>," ++ 10%N :: s "B: <b@x>")%list).
   Proof. vm_compute. split; reflexivity. Qed.
+
+  (* a control file in the domain of C07_control_real: relationship fields over several lines, with a
+     version, alternatives and a substitution variable; Uploaders; comments; paragraphs out of order *)
+  Definition rl (n tr : string) : RelGrammar.rel := RelGrammar.mk_rel (s n) None None None [] (s tr).
+  Definition rf_bd : RelGrammar.rfield :=
+    RelGrammar.mk_rfield (s " ")
+      (RelGrammar.IEntry (RelGrammar.mk_rel (s "b") None (Some (RelGrammar.mk_vclause (s " ") [] RelAcc.VGe (s " ") None (s "1") [] [])) None [] []) [])
+      [([10%N], RelGrammar.IEntry (rl "a" "") [])].
+  Definition rf_dep : RelGrammar.rfield :=
+    RelGrammar.mk_rfield (s " ") (RelGrammar.ISubst (s "misc") [s "Depends"] [])
+      [(s " ", RelGrammar.IEntry (rl "z" " ") [(s " ", rl "y" "")])].
+  Definition f_bd := mk_field (s "Build-Depends") (s " ") (s "b (>= 1),") [(s "  ", s "a")] true.
+  Definition f_dep := mk_field (s "Depends") (s " ") (s "${misc:Depends}, z | y") [] true.
+  Definition f_upl := mk_field (s "Uploaders") (s " ") (s "A <a@x>, B: <b@x>") [] true.
+  Definition f_pkg := mk_field (s "Package") (s " ") (s "p") [] true.
+  Definition f_desc := mk_field (s "Description") (s " ") (s "x") [(s " ", s "y")] true.
+  Definition f_src := mk_field (s "Source") (s " ") (s "s") [] true.
+  Definition dc : doc :=
+    [BPara f_pkg [IComment (s " deps") true; IField f_dep; IField f_desc];
+     BBlank; BComment (s " the source") true;
+     BPara f_src [IField f_upl; IField f_bd]].
+
+  Example control_hypotheses : wf_doc dc = true /\ ctl_doc_ok (lift dc).
+  Proof.
+    split; [vm_compute; reflexivity|]. intros its Hin f Hf.
+    assert (Hf' : In f [f_pkg; f_dep; f_desc; f_src; f_upl; f_bd]).
+    { cbn in Hin. destruct Hin as [E|[E|[E|[E|[]]]]]; try discriminate; injection E as <-;
+        cbn in Hf; repeat (destruct Hf as [Hf|Hf]; [try discriminate; injection Hf as <-; cbn; tauto|]); contradiction. }
+    cbn in Hf'. destruct Hf' as [<-|[<-|[<-|[<-|[<-|[<-|[]]]]]]]; unfold ctl_field_ok.
+    - exact I.
+    - exists rf_dep. repeat split; vm_compute; reflexivity.
+    - exact I.
+    - exact I.
+    - vm_compute. reflexivity.
+    - exists rf_bd. repeat split; vm_compute; reflexivity.
+  Qed.
+
+  Example control_result :
+    rmap text (real_control_ws (mk_wcfg (Spaces 2) false None) (tree_of dc)) =
+    Ok (s "# the source
+Source: s
+Uploaders: A <a@x>,
+  B: <b@x>
+Build-Depends: a, b (>= 1)
+
+Package: p
+# deps
+Depends: y | z, ${misc:Depends}
+Description: x
+  y
+").
+  Proof. vm_compute. reflexivity. Qed.
+
+  (* an error-free text outside the abstract grammar: blanks before the colon, CR line ends, a comment
+     line and a blank line inside a value, no space after a colon, comments at every level: the reader's
+     tree is a token document, and the reformatting (fields by name) is computed *)
+  Definition cr : str := [13%N].
+  Definition exotic : str := (s "Zz : b" ++ cr ++ s "  c" ++ cr ++ s "
+# x
+B:
+ #c
+ 
+	d
+Aa:x
+
+# t")%list.
+  Example exotic_is_token_doc :
+    exists t, from_str exotic = Ok t /\ token_doc (Spaces 2) t = true /\
+      rmap text (doc_ws fixed None (Some (para_ws fixed (Spaces 2) true (Some 10%N) (Some by_name) None)) t) =
+      Ok (s "Zz:
+  b" ++ cr ++ s "  c
+
+# x
+Aa:x
+B:
+  #c
+  
+  d
+# t
+")%list.
+  Proof. eexists. split; [vm_compute; reflexivity|]. split; vm_compute; reflexivity. Qed.
 End Examples.
